@@ -237,9 +237,19 @@ class PeerOpensMonitor(Monitor):
                 pair = getattr(ep.conn, "_cryptos", {}).get(tls.Epoch.ZERO_RTT)
                 must = pair is not None and pair.recv.is_valid()
             elif v.ptype == "1rtt" and ep.handshake_complete and not self.key_updates and ("A", v.pn) not in opened:
-                # (1-RTT packets are only counted: one addressed to a connection ID the receiver has meanwhile retired
-                # at the sender's own request, or overtaken by a key update, is dropped legitimately)
+                # (1-RTT packets are only counted in general: one addressed to a connection ID the receiver has meanwhile
+                # retired at the sender's own request, or overtaken by a key update, is dropped legitimately)
                 self.obs_1rtt_not_opened = getattr(self, "obs_1rtt_not_opened", 0) + 1
+                # ... except a 1-RTT packet that travels in one datagram *behind* a long-header packet (a Handshake or
+                # Initial retransmission whose keys the receiver may have discarded): whatever becomes of the first
+                # packet, the rest of the datagram is processed (RFC 9000 12.2) — if the receiver holds the 1-RTT keys
+                # and still routes the connection ID (hooked state, used only to leave the legitimate drops out)
+                idx = (rec.views or []).index(v)
+                behind_long = any(w.ptype in ("initial", "handshake") for w in (rec.views or [])[:idx])
+                routed = any(bytes(c.cid) == bytes(v.dcid) for c in getattr(ep.conn, "_host_cids", []))
+                closing = ep.conn._state.name != "CONNECTED" or ep.conn._close_pending
+                if behind_long and routed and not closing and ep.name == "server":
+                    must = True
             if not must:
                 continue
             self.evaluations += 1
@@ -247,7 +257,7 @@ class PeerOpensMonitor(Monitor):
             if ("A", v.pn) in opened:
                 self.seen.add(key)
             else:
-                raise Violation("peer:cannot-open-genuine-packet:%s" % v.ptype,
+                raise Violation("peer:cannot-open-genuine-packet:%s" % (v.ptype if v.ptype != "1rtt" else "1rtt-behind-long-header-packet"),
                                 "%s holds the %s receive keys but its packet protection did not open the genuine %s packet %d (version on the wire 0x%x) delivered at t=%.4f"
                                 % (ep.name, v.ptype, v.ptype, v.pn, getattr(v, "version", 0) or 0, t), {"t": t, "view": v.brief()})
 
